@@ -17,7 +17,7 @@ RULE = (
     "case = shapes from box/circle/ellipse primitives (any vertex count, orientation, centre, rotation) x a chain of 1..3 set operations (method, "
     "operator or classmethod form) with overlapping partners (plus unconstrained pairs where a ValueError is admissible, counted) x 0..3 transforms "
     "(rotate/translate/scale incl. reflections, unequal factors and the 'center'/'centroid' origins, in place or not) x a jittered grid of probe "
-    "points, or a device (film, holes, probe points) under copy/scale/rotate/translate; non-trivial = boundaries of a pair intersect, or a "
+    "points, or a device (film, holes, probe points) under copy/scale/rotate/translate and the temporary `translation()` context (queried inside and after the block); non-trivial = boundaries of a pair intersect, or a "
     "transform with a reflection; distinct by spec hash"
 )
 ASSUMPTIONS = [
@@ -108,6 +108,7 @@ def _poly_case(draw, tier):
 def _device_case(draw, tier):
     d = draw(gen.device(terminals=(0, 2), holes=(0, 2), probes=(0, 2, 3), film_kinds=("box", "ellipse", "union"), size=(3.5, 7.0)).filter(gen.valid_device))
     return dict(kind="device", device=d, transforms=[dict(draw(_transform()), inplace=False) for _ in range(draw(st.integers(1, 2)))],
+                context=dict(dx=draw(gen.rf(-5.0, 5.0)), dy=draw(gen.rf(-5.0, 5.0))),
                 grid=dict(n=draw(st.integers(8, 14)), jx=draw(gen.rf(0, 0.4)), jy=draw(gen.rf(0, 0.4)), k=[draw(gen.rf(0.5, 5)) for _ in range(2)]))
 
 
@@ -384,5 +385,31 @@ def _device(spec, res):
         c = dev.copy()
         if c != dev or c is dev or np.shares_memory(c.film.points, dev.film.points):
             res.fail("C18.device_copy", "Device.copy() is not an independent equal device")
+    # the temporary translation (a context manager): inside the block the device is the shifted one, afterwards it is the
+    # original again - for the stored shapes and for membership queries alike
+    ctx = spec.get("context")
+    if ctx and not res.violations:
+        d3 = dev.copy()
+        sh = np.array([ctx["dx"], ctx["dy"]]) * size / 5.0
+        d3.contains_points(q)
+        try:
+            with d3.translation(float(sh[0]), float(sh[1])):
+                in_block = d3.contains_points(q + sh)
+                film_in = d3.film.points.copy()
+            after = d3.contains_points(q)
+        except Exception as exc:  # noqa: BLE001
+            res.fail("C18.device_transform_raised", f"translation({sh.tolist()}): {type(exc).__name__}: {exc}")
+            return res
+        res.label("temporary translation")
+        if np.any(far & (in_block != want)):
+            j = int(np.argmax(far & (in_block != want)))
+            res.fail("C18.device_translation_context", f"inside `with device.translation({sh.tolist()})`: point {(q[j] + sh).tolist()} (pre-image in device: {bool(want[j])}) is reported {bool(in_block[j])}")
+        if not np.allclose(film_in, film + sh, rtol=0, atol=1e-9 * size):
+            res.fail("C18.device_translation_context", "inside the block the film outline is not the translated one")
+        if np.any(far & (after != want)):
+            j = int(np.argmax(far & (after != want)))
+            res.fail("C18.device_translation_context", f"after `with device.translation({sh.tolist()})`: Device.contains_points({q[j].tolist()}) = {bool(after[j])}, film and not holes = {bool(want[j])}")
+        if not (np.allclose(d3.film.points, film, rtol=0, atol=1e-9 * size) and all(np.allclose(a.points, b, rtol=0, atol=1e-9 * size) for a, b in zip(d3.holes, holes))):
+            res.fail("C18.device_translation_context", "after the block the stored outlines are not the original ones")
     res.nontrivial = reflected or len(holes) > 0
     return res
